@@ -257,7 +257,13 @@ def _str_escape(s: str) -> str:
     return s
 
 def _bytes_escape(b: bytes) -> str:
-    return repr(b)[2:-1]
+    r = repr(b)
+    body = r[2:-1]
+    if r[1] == '"':
+        # repr() picked double quotes because the value contains a single quote;
+        # we always display single quotes.
+        body = body.replace("'", "\\'")
+    return body
 
 class PyvalColorizer:
     """
